@@ -188,7 +188,7 @@ func (a *r1Analysis) compute(fn *ssa.Function) *r1Sum {
 }
 
 func isBatchEntry(fn *ssa.Function) bool {
-	if typeName(recvType(fn)) == "Batch" || strings.Contains(fn.Name(), "Batch") {
+	if typeName(recvType(fn)) == "Batch" || strings.Contains(fn.Name(), "Batch") || fn.Name() == "RemoveEntities" {
 		return true
 	}
 	for _, pr := range fn.Params {
